@@ -577,6 +577,14 @@ func exprDepth(v ssa.Value, d int, onstack map[ssa.Value]bool) string {
 	case *ssa.Builtin:
 		return x.Name()
 	case *ssa.Alloc:
+		// A local with exactly one store behaves like an SSA value (parameters captured by a
+		// closure, `x, ok := f()` results that are address-taken): render the stored value, so that
+		// expressions do not depend on whether a variable happens to be spilled.
+		if sv := singleStore(x); sv != nil {
+			if _, isParam := sv.(*ssa.Parameter); isParam || d < 6 {
+				return r(sv)
+			}
+		}
 		// local variable; identify by its source name when available
 		if x.Comment != "" {
 			return "local:" + x.Comment
@@ -764,7 +772,7 @@ func (f *Fn) Stores(pred func(addr string) bool) []*ssa.Store {
 	var out []*ssa.Store
 	for _, b := range f.F.Blocks {
 		for _, ins := range b.Instrs {
-			if s, ok := ins.(*ssa.Store); ok && f.Live(ins) && pred(Expr(s.Addr)) {
+			if s, ok := ins.(*ssa.Store); ok && f.Live(ins) && pred(AddrExpr(s.Addr)) {
 				out = append(out, s)
 			}
 		}
@@ -910,4 +918,71 @@ func (f *Fn) ReturnValues(ret *ssa.Return) []ssa.Value {
 		out[i] = f.ValueAt(r, ret)
 	}
 	return out
+}
+
+// singleStore returns the value of the only Store into the alloc (nil if none or several, or if
+// the address escapes into something other than loads, stores, field/index addressing and closures).
+func singleStore(al *ssa.Alloc) ssa.Value {
+	if al.Referrers() == nil {
+		return nil
+	}
+	var val ssa.Value
+	n := 0
+	for _, r := range *al.Referrers() {
+		switch x := r.(type) {
+		case *ssa.Store:
+			if x.Addr == ssa.Value(al) {
+				n++
+				val = x.Val
+			}
+		case *ssa.FieldAddr, *ssa.IndexAddr:
+			// partial writes through sub-addresses: check that none of them is a store target
+			if hasStoreThrough(x.(ssa.Value)) {
+				return nil
+			}
+		}
+	}
+	if n == 1 {
+		if _, isAlloc := val.(*ssa.Alloc); isAlloc {
+			return nil
+		}
+		return val
+	}
+	return nil
+}
+
+func hasStoreThrough(addr ssa.Value) bool {
+	refs := addr.Referrers()
+	if refs == nil {
+		return false
+	}
+	for _, r := range *refs {
+		switch x := r.(type) {
+		case *ssa.Store:
+			if x.Addr == addr {
+				return true
+			}
+		case *ssa.FieldAddr:
+			if hasStoreThrough(x) {
+				return true
+			}
+		case *ssa.IndexAddr:
+			if hasStoreThrough(x) {
+				return true
+			}
+		}
+	}
+	return false
+}
+
+// AddrExpr renders the address operand of a store: a bare local is shown by name (not by the
+// value of its single store).
+func AddrExpr(v ssa.Value) string {
+	if al, ok := v.(*ssa.Alloc); ok {
+		if al.Comment != "" {
+			return "local:" + al.Comment
+		}
+		return "local:" + al.Name()
+	}
+	return Expr(v)
 }
